@@ -47,7 +47,7 @@ UNIT = dict(
         "BLOCK: the units are the bodies of the two per-(action, weight) loops of Game::strat_into_box (the hashing import path): the validation kernel. What the surrounding loops iterate over, the construction of the two lookup tables, the all-singles-seen check and the agreement with the scanning path are NOT covered",
         "std::borrow::Borrow and HashMap::get are local declarations with assumed contracts (key equality of the map is equality of the abstract keys; Hash/Eq coherence of user types is assumed)",
         "a clone of an action name is the same abstract key (Clone / Eq / Hash coherence of the user's type, assumed)",
-        "every index stored in the action table is inside the dense vector (established by the table construction, assumed)",
+        "every index stored in the action table is inside the dense vector: precondition here; the table construction gives infoset k the block [offset_k, offset_k + #actions) and leaves the running index at the total (c14_hash_tables, per infoset), the dense vector is allocated with that total",
     ],
     items=[
         dict(file="src/error.rs", path="enum StratError", attrs="#[derive(PartialEq, Eq)]"),
